@@ -363,6 +363,11 @@ pub fn run_check_with_context(opts: &CheckOptions<'_>) -> crate::Result<i32> {
             .baseline
             .clone()
             .unwrap_or_else(|| state::baseline_path(project_root));
+        // Without --baseline nothing was loaded, but the file about to be replaced may
+        // exist: `new` must not drop its entries, `content`/`structure` keep the other kind.
+        if baseline_for_ratchet.is_none() {
+            baseline_for_ratchet = load_baseline_optional(Some(&baseline_path))?;
+        }
         update_baseline_from_results(
             &results,
             mode,
